@@ -52,9 +52,9 @@ pub fn emit(tier: &str, seed: u64, path: &str) -> Report {
         }
         let extra = match (p.is_local(), thorough) {
             (true, false) => 150,
-            (true, true) => 6000,
+            (true, true) => 30_000,
             (false, false) => 20,
-            (false, true) => if p == P::V1P || p == P::V3P { 500 } else { 1500 },
+            (false, true) => if p == P::V1P || p == P::V3P { 2000 } else { 6000 },
         };
         for _ in 0..extra {
             lens.push(rng.below(if p.is_local() { 3000 } else { 600 }));
